@@ -4,7 +4,7 @@ use crate::ev::Ctx;
 use crate::fill::{Ctor, Fill};
 use crate::sr::{explore, FnModel, Node};
 use crate::tables::numa::{real_sll_new, ref_sll_with, sll_shape};
-use crate::util::{catch, hex, ser, sum8, W};
+use crate::util::{catch, hex, rd32, ser, sum8, W};
 use acpi_tables::{hmat, slit::SLIT};
 use serde_json::json;
 use std::sync::atomic::AtomicU64;
@@ -142,6 +142,18 @@ fn hmat_real_obs(f: &Fill, ni: usize, nt: usize, ops: &[HOp], observe: bool) -> 
         let img = ser(&s);
         let c = Ctor::new(2, 0, 2);
         let mut t = hmat::HMAT::new(c.oem_id(), c.oem_table_id(), c.oem_rev());
+        if observe {
+            // ... and the table it goes into already holds another structure (a latency and a bandwidth matrix in one
+            // HMAT is the ordinary case): "the table checksum stays valid throughout" is judged on that table too
+            let other = real_sll_new(&f.with(crate::fill::SZ, 1).with(crate::fill::SX, 2), sll_shape(0, 0, 0));
+            t.add_system_locality(other);
+            t.add_system_locality(s);
+            let table = ser(&t);
+            if sum8(&table) != 0 || !table.ends_with(&img) || rd32(&table, 4) as usize != table.len() {
+                panic!("as the SECOND structure of an HMAT: table sums to {} mod 256, Length {} of {} bytes, structure bytes at the end: {}", sum8(&table), rd32(&table, 4), table.len(), table.ends_with(&img));
+            }
+            return (img, table);
+        }
         t.add_system_locality(s);
         (img, ser(&t))
     })
